@@ -64,6 +64,14 @@ def _num(a):
 
 
 # name -> (family, applicable(a), fn(a))  -- fn must work identically on UxDataArray and xr.DataArray
+def _lead_mask(a):
+    """False for the first label of the leading dimension: where(..., drop=True) removes that label."""
+    import xarray as xr
+
+    d = _lead(a)
+    return xr.DataArray(np.arange(a.sizes[d]) >= 1, dims=[d])
+
+
 def catalogue():
     import xarray as xr
 
@@ -90,6 +98,7 @@ def catalogue():
     # where / clip / fillna / astype
     add("where_cond", "where", lambda a: a.where(a > 2), _num)
     add("where_other", "where", lambda a: a.where(a > 2, 0), _num)
+    add("where_drop_lead", "where", lambda a: a.where(_lead_mask(a), drop=True), lambda a: _need_lead(a) and _num(a))
     add("clip", "where", lambda a: a.clip(1, 4), _num)
     add("fillna", "where", lambda a: a.fillna(7), _float)
     add("where_fillna", "where", lambda a: a.where(a > 2).fillna(-1), _num)
@@ -150,7 +159,7 @@ def catalogue():
 
 
 OWN = ["grid_isel_kw", "grid_isel_dict", "grid_getitem", "grid_head", "grid_isel_with_lead", "grid_isel_bool", "grid_isel_bool_da", "grid_isel_shuffled", "grid_isel_repeated",
-       "grid_isel_negstep", "grid_isel_scalar", "grid_tail", "grid_thin", "grid_where_drop", "grid_where_drop_other", "integrate", "gradient", "difference", "topological_mean", "remap_nn", "remap_idw", "get_dual"]
+       "grid_isel_negstep", "grid_isel_scalar", "grid_tail", "grid_thin", "grid_where_drop", "grid_where_drop_other", "grid_where_drop_lead_and_values", "integrate", "gradient", "difference", "topological_mean", "remap_nn", "remap_idw", "get_dual"]
 
 
 def own_applicable(name, a):
@@ -163,6 +172,8 @@ def own_applicable(name, a):
         return n >= 2 and getattr(a, "uxgrid", True) is not None
     if name in ("grid_where_drop", "grid_where_drop_other"):
         return n >= 2 and _num(a) and a.dtype.kind == "f"
+    if name == "grid_where_drop_lead_and_values":
+        return n >= 2 and _num(a) and a.dtype.kind == "f" and _need_lead(a)
     if name == "grid_isel_with_lead":
         return n >= 2 and _need_lead(a)
     if name == "integrate":
@@ -225,9 +236,18 @@ def apply_own(name, a, other_grid, rng):
         v = np.asarray(a.values, dtype=float)
         red = np.nanmax(v, axis=tuple(i for i, dd in enumerate(a.dims) if dd != d)) if v.ndim > 1 else v
         thr = float(np.nanmedian(red)) if np.any(np.isfinite(red)) else 0.0
+        if not np.any(red > thr):
+            thr = (float(np.nanmin(red)) if np.any(np.isfinite(red)) else 0.0) - 1.0  # equal values everywhere: keep every element
         if name == "grid_where_drop_other":
             return a.where(a > thr, -5.0, drop=True)
         return a.where(a > thr, drop=True)
+    if name == "grid_where_drop_lead_and_values":
+        v = np.take(np.asarray(a.values, dtype=float), np.arange(1, a.sizes[_lead(a)]), axis=list(a.dims).index(_lead(a)))  # the labels the mask keeps
+        red = np.nanmax(v, axis=tuple(i for i, dd in enumerate(a.dims) if dd != d))
+        thr = float(np.nanmedian(red)) if np.any(np.isfinite(red)) else 0.0
+        if not np.any(red > thr):
+            thr = (float(np.nanmin(red)) if np.any(np.isfinite(red)) else 0.0) - 1.0
+        return a.where(_lead_mask(a) & (a > thr), 0, drop=True)
     if name == "integrate":
         return a.integrate()
     if name == "gradient":
